@@ -28,7 +28,7 @@ CONSTANTS
     NRes, NClients,
     Forms,        \* header forms the origin may attach to a 200 (ids, see FormStorable/FormLife)
     FormStorable, \* [Forms -> "yes" | "no" | "either"]  origin's marking under honoured directives
-    FormLife,     \* [Forms -> 0 (configured default) | lifetime in ticks]
+    FormLife,     \* [Forms -> 0 (none given: configured default) | -1 (already expired) | lifetime in ticks]
     ValKinds,     \* validator kinds the origin may use: "etag","lm","both","none","weak"
     DefaultAge,   \* configured default_max_age in ticks
     IgnoreCC,     \* ignore_cache_control
@@ -74,7 +74,8 @@ Init ==
 (* Reference semantics of the cache policy (C03, C04)                        *)
 
 Storable(f) == IF IgnoreCC THEN "yes" ELSE FormStorable[f]
-Life(f)     == IF ForceDefault \/ FormLife[f] = 0 THEN DefaultAge ELSE FormLife[f]
+Life(f)     == IF ForceDefault \/ FormLife[f] = 0 THEN DefaultAge
+               ELSE IF FormLife[f] < 0 THEN 0 ELSE FormLife[f]
 Fresh(e)    == e.present /\ now < e.expires
 
 \* validators the proxy must present when revalidating entry e
